@@ -58,7 +58,7 @@ def miri(ctx, mode, max_len, flags, label):
             continue
         if finding and finding[0] != "unsupported":
             ctx.violation("miri-" + finding[0], "[%s] %s | %s | run: vecmon %s" % (label, finding[1], finding[2], lab),
-                          "%s miri %s %s" % (ctx.pid, finding[1][:160], finding[2][:160]),
+                          "%s miri %s %s" % (ctx.pid, common.norm_miri(finding[1])[:160], finding[2][:160]),
                           {"cmd": "cd harness && MIRIFLAGS='%s %s' cargo +nightly miri run -p vecmon -- %s" % (common.MIRI_BASE_FLAGS, flags, lab),
                            "stderr": (err or "")[-3000:]})
             continue
